@@ -10,6 +10,8 @@ From PV Require Import Run.R10.
 From PV Require Import Run.R11.
 From PV Require Import Run.R12.
 From PV Require Import Run.R13.
+From PV Require Import Run.R14.
+From PV Require Import Run.R15.
 From PV Require Import Run.R16.
 From PV Require Import Run.R17.
 From PV Require Import Run.R18.
@@ -28,6 +30,8 @@ Definition dispatch (st : rstate) (op : N) (arg : value) : option (rstate * valu
   | 11 => run11 st op arg
   | 12 => run12 st op arg
   | 13 => run13 st op arg
+  | 14 => run14 st op arg
+  | 15 => run15 st op arg
   | 16 => run16 st op arg
   | 17 => run17 st op arg
   | 18 => run18 st op arg
